@@ -174,16 +174,32 @@ fn nested(rng: &mut Rng, depth: usize) -> (String, String) {
     for c in opens.iter().rev() {
         val.push(if *c == '[' { ']' } else { '}' });
     }
+    // list types: non-null at every level, at no level, or mixed; sometimes left unclosed
+    let style = rng.below(4);
     let mut ty = String::new();
     for _ in 0..depth {
         ty.push('[');
     }
     ty.push_str("Int");
-    for _ in 0..depth {
-        ty.push_str("]!");
+    let closers = if style == 3 { rng.below(depth + 1) } else { depth };
+    for _ in 0..closers {
+        ty.push_str(match style {
+            0 => "]!",
+            1 => "]",
+            _ => if rng.coin() { "]!" } else { "]" },
+        });
     }
     let schema = format!("type Query {{ t: T a(x: {ty}): Int }}\ntype T {{ t: T id: ID }}\n");
-    let op2 = format!("{op}\nquery V {{ a(x: {val}) }}\n");
+    // the same type as a variable type; the value sometimes left unclosed as well
+    if rng.chance(1, 4) {
+        let cut = rng.below(val.len() + 1);
+        let mut k = cut;
+        while !val.is_char_boundary(k) {
+            k -= 1;
+        }
+        val.truncate(k);
+    }
+    let op2 = format!("{op}\nquery V($v: {ty}) {{ a(x: {val}) b: a(x: $v) }}\n");
     (schema, op2)
 }
 
@@ -202,6 +218,10 @@ fn mutate_config(rng: &mut Rng) -> String {
     c
 }
 
+/// parser step budget: generous (a valid document needs a few dozen rule calls per byte)
+pub const PARSER_STEPS_PER_BYTE: usize = 5_000;
+pub const PARSER_STEPS_BASE: usize = 500_000;
+
 pub fn check_case(schema: &str, op: &str, frag: &str, config: &str) -> Vec<Violation> {
     let replay = json!({"property":"C08","kind":"project","schema":schema,"op":op,"frag":frag,"config":config});
     let mut out = vec![];
@@ -210,6 +230,36 @@ pub fn check_case(schema: &str, op: &str, frag: &str, config: &str) -> Vec<Viola
         detail: format!("stage {stage} panicked at {}:{}: {} — schema {:?} op {:?}", p.file, p.line, clip(&p.msg, 200), clip(schema, 300), clip(op, 300)),
         replay: replay.clone(),
     };
+    // a budget of parser steps (pest's running total of rule calls) proportional to the input: a parse that exhausts
+    // it returns the error "call limit reached" — a logical, load-independent way to observe super-linear parsing
+    let longest = schema.len().max(op.len()).max(frag.len());
+    pest::set_call_limit(std::num::NonZeroUsize::new(PARSER_STEPS_PER_BYTE * longest + PARSER_STEPS_BASE));
+    let over_budget = |grammar: &str, t: &str, out: &mut Vec<Violation>| {
+        out.push(Violation {
+            sig: format!("C08|parser-step-budget-exceeded|{grammar}"),
+            detail: format!("parsing {} bytes with the {grammar} grammar needs more than {} rule calls ({PARSER_STEPS_PER_BYTE} per byte + {PARSER_STEPS_BASE}): super-linear parsing — text {:?}", t.len(), PARSER_STEPS_PER_BYTE * longest + PARSER_STEPS_BASE, clip(t, 300)),
+            replay: replay.clone(),
+        });
+    };
+    for t in [schema, op, frag] {
+        if let Err(real::Fail::Err(m, _)) = real::parse_exec(t) {
+            if m.contains("call limit reached") {
+                over_budget("operation", t, &mut out);
+            }
+        }
+        if let Err(real::Fail::Err(m, _)) = real::parse_ts(t) {
+            if m.contains("call limit reached") {
+                over_budget("type-system", t, &mut out);
+            }
+        }
+    }
+    pest::set_call_limit(None);
+    if out.iter().any(|v| v.sig.starts_with("C08|parser-step-budget-exceeded")) {
+        // the remaining stages would parse the same text again without a budget
+        out.sort_by(|a, b| a.sig.cmp(&b.sig));
+        out.dedup_by(|a, b| a.sig == b.sig);
+        return out;
+    }
     // every text to both grammars
     for t in [schema, op, frag] {
         if let Err(real::Fail::Panic(p)) = real::parse_exec(t) {
@@ -234,6 +284,45 @@ pub fn check_case(schema: &str, op: &str, frag: &str, config: &str) -> Vec<Viola
     out.sort_by(|a, b| a.sig.cmp(&b.sig));
     out.dedup_by(|a, b| a.sig == b.sig);
     out
+}
+
+pub const FUZZ_SEP: &str = "\n#=====#\n";
+
+/// one libFuzzer input: up to four parts (operation, schema, fragment file, config) separated by FUZZ_SEP; missing parts
+/// are the base project's. Violations are written to $NQV_FUZZ_OUT/finding-<hash of signature>.json (first witness per
+/// signature); `check` classifies them against the known findings afterwards.
+pub fn fuzz_one(text: &str) {
+    let parts: Vec<&str> = text.splitn(4, FUZZ_SEP).collect();
+    let op = parts.first().copied().unwrap_or(BASE_OP);
+    let schema = parts.get(1).copied().unwrap_or(BASE_SCHEMA);
+    let frag = parts.get(2).copied().unwrap_or(BASE_FRAG);
+    let config = parts.get(3).copied().unwrap_or(BASE_CONFIG);
+    let vs = check_case(schema, op, frag, config);
+    if vs.is_empty() {
+        return;
+    }
+    let Ok(dir) = std::env::var("NQV_FUZZ_OUT") else { return };
+    for v in vs {
+        let mut h: u64 = 0xcbf29ce484222325;
+        for b in v.sig.bytes() {
+            h = (h ^ b as u64).wrapping_mul(0x100000001b3);
+        }
+        let path = format!("{dir}/finding-{h:016x}.json");
+        if !std::path::Path::new(&path).exists() {
+            let _ = std::fs::write(&path, serde_json::to_string(&json!({"sig": v.sig, "detail": v.detail, "replay": v.replay})).unwrap_or_default());
+        }
+    }
+}
+
+/// seed corpus for the fuzzer: the generated workload of the monitor, one file per input
+pub fn write_fuzz_corpus(dir: &str, n: u64, seed: u64) {
+    let _ = std::fs::create_dir_all(dir);
+    for case in 0..n {
+        let mut rng = Rng::from_parts(seed, "C08/fuzz-corpus", 0, case);
+        let (schema, op, frag, config, _) = gen_inputs(&mut rng);
+        let text = [op.as_str(), schema.as_str(), frag.as_str(), config.as_str()].join(FUZZ_SEP);
+        let _ = std::fs::write(format!("{dir}/seed-{case:05}"), text);
+    }
 }
 
 pub fn check_cli(ctx: &Ctx, n: u64, schema: &str, op: &str, frag: &str, config: &str) -> Vec<Violation> {
@@ -380,27 +469,39 @@ pub fn run_loader(ctx: &Ctx, rep: &mut Report) {
         rep.eval();
         rep.count(&format!("loader_inputs|{kind}"));
         rep.nontrivial(&format!("L{op}\u{1}{frag}\u{1}{config}"));
-        loader_case(&op, &frag, &config);
+        // the same parser-step budget as in the library part (the loader links the same pest instance)
+        let longest = op.len().max(frag.len());
+        pest::set_call_limit(std::num::NonZeroUsize::new(PARSER_STEPS_PER_BYTE * longest + PARSER_STEPS_BASE));
+        let texts = loader_case(&op, &frag, &config);
+        pest::set_call_limit(None);
+        if texts.iter().any(|t| t.contains("call limit reached")) {
+            rep.violations(vec![Violation { sig: "C08|parser-step-budget-exceeded|loader".into(), detail: format!("the loader needs more than {} parser rule calls for {} bytes: super-linear parsing — operation {:?} fragment file {:?}", PARSER_STEPS_PER_BYTE * longest + PARSER_STEPS_BASE, longest, clip(&op, 300), clip(&frag, 200)), replay: replay.clone() }]);
+        }
     }
     rep.note("loader part: load_config -> initiate_task -> get_required_files -> load_file -> emit_js -> free_task over the extern \"C\" ABI, no prior check");
 }
 
-fn loader_case(op: &str, frag: &str, config: &str) {
+/// -> the result / error texts the loader produced along the way
+fn loader_case(op: &str, frag: &str, config: &str) -> Vec<String> {
     use crate::props::c19::abi;
+    let mut texts = vec![];
     abi::init();
     abi::config(config);
     let id = abi::initiate("/proj/op.graphql", op);
     if id != 0 {
         loader_shim::get_required_files(id);
-        let _ = abi::read_result();
-        abi::load(id, "/proj/frag.graphql", frag);
+        texts.push(abi::read_result());
+        if !abi::load(id, "/proj/frag.graphql", frag) {
+            texts.push(abi::read_result());
+        }
         loader_shim::get_required_files(id);
         loader_shim::emit_js(id);
-        let _ = abi::read_result();
+        texts.push(abi::read_result());
         loader_shim::free_task(id);
     } else {
-        let _ = abi::read_result();
+        texts.push(abi::read_result());
     }
+    texts
 }
 
 /// input-feature class of a case, used to key findings whose death leaves no site behind (stack overflow)
